@@ -121,6 +121,40 @@ func c03CliOnlyCompactor(s *c02Src) (Tri, string) {
 	return TriOf(ok), c02Where(s.cli, fd)
 }
 
+// in both compaction bodies a failing writer.Close() (its flush or fsync failed) must abort before the rename
+func c03CloseErrorAborts(s *c02Src) (Tri, string) {
+	if s.c == nil {
+		return Unknown, ""
+	}
+	where := ""
+	for _, fn := range [][2]string{{"Compactor", "Compact"}, {"", "CompactFromIndex"}} {
+		fd := s.c.Func(fn[0], fn[1])
+		if fd == nil || fd.Body == nil {
+			return Unknown, c02Compact
+		}
+		found := false
+		for _, st := range fd.Body.List {
+			ifs, ok := st.(*ast.IfStmt)
+			if !ok || ifs.Init == nil || s.c.Str(ifs.Init) != "err := writer.Close()" || s.c.Str(ifs.Cond) != "err != nil" {
+				continue
+			}
+			found = true
+			where = c02Where(s.c, ifs)
+			n := len(ifs.Body.List)
+			if n == 0 {
+				return No, where
+			}
+			if _, isRet := ifs.Body.List[n-1].(*ast.ReturnStmt); !isRet {
+				return No, where
+			}
+		}
+		if !found {
+			return Unknown, c02Where(s.c, fd)
+		}
+	}
+	return Yes, where
+}
+
 func c03Facts(fs *Facts, s *c02Src) {
 	var fdL, fdI, fdC *ast.FuncDecl
 	if s.ch != nil {
@@ -144,6 +178,8 @@ func c03Facts(fs *Facts, s *c02Src) {
 	fs.Tri("closeFsyncs", t, w)
 	t, w = c03RenameAfterClose(s)
 	fs.Tri("renameAfterClose", t, w)
+	t, w = c03CloseErrorAborts(s)
+	fs.Tri("closeErrorAborts", t, w)
 	t, w = c02FlushOrderCanonical(s)
 	fs.Tri("flushOrderCanonical", t, w)
 	t, w = c03CliOnlyCompactor(s)
@@ -154,6 +190,8 @@ func c03Facts(fs *Facts, s *c02Src) {
 	sh, td, w := c02ReaderFacts(s)
 	fs.Tri("shortHeaderIsEOF", sh, w)
 	fs.Tri("tornDataIsEOF", td, w)
+	_, tr, w := c02OpensExistingForAppend(s)
+	fs.Tri("truncatesTornTail", tr, w)
 }
 
 func init() {
